@@ -812,8 +812,18 @@ func splitTop(s string) []string {
 
 // ResolveTypeX turns a spec type into a sort, resolving names in package pk.
 func (p *Program) ResolveTypeX(ss *Sorts, pk *packages.Package, t *TypeX) (*Sort, types.Type, error) {
+	return p.resolveTypeXWith(ss, pk, t, nil)
+}
+
+// resolveTypeXWith: extra maps names (type parameters in scope) to types.
+func (p *Program) resolveTypeXWith(ss *Sorts, pk *packages.Package, t *TypeX, extra map[string]types.Type) (*Sort, types.Type, error) {
 	switch t.Kind {
 	case "name":
+		if t.Pkg == "" && extra != nil {
+			if gt, ok := extra[t.Name]; ok {
+				return ss.Of(gt), gt, nil
+			}
+		}
 		if t.Pkg == "" {
 			switch t.Name {
 			case "int":
@@ -843,6 +853,23 @@ func (p *Program) ResolveTypeX(ss *Sorts, pk *packages.Package, t *TypeX) (*Sort
 		if obj == nil {
 			obj = types.Universe.Lookup(t.Name)
 		}
+		if tn0, ok := obj.(*types.TypeName); ok && len(t.Args) > 0 {
+			if named, ok := tn0.Type().(*types.Named); ok && named.TypeParams() != nil && named.TypeParams().Len() == len(t.Args) {
+				var targs []types.Type
+				for _, a := range t.Args {
+					_, gt, err := p.resolveTypeXWith(ss, pk, a, extra)
+					if err != nil || gt == nil {
+						return nil, nil, fmt.Errorf("cannot resolve type argument %s of %s", a, t)
+					}
+					targs = append(targs, gt)
+				}
+				inst, err := types.Instantiate(nil, named, targs, false)
+				if err != nil {
+					return nil, nil, err
+				}
+				return ss.Of(inst), inst, nil
+			}
+		}
 		tn, ok := obj.(*types.TypeName)
 		if !ok {
 			// opaque spec-only sort
@@ -853,7 +880,7 @@ func (p *Program) ResolveTypeX(ss *Sorts, pk *packages.Package, t *TypeX) (*Sort
 		}
 		return ss.Of(tn.Type()), tn.Type(), nil
 	case "ptr":
-		_, gt, err := p.ResolveTypeX(ss, pk, t.Elem)
+		_, gt, err := p.resolveTypeXWith(ss, pk, t.Elem, extra)
 		if err != nil {
 			return nil, nil, err
 		}
@@ -863,7 +890,7 @@ func (p *Program) ResolveTypeX(ss *Sorts, pk *packages.Package, t *TypeX) (*Sort
 		pt := types.NewPointer(gt)
 		return ss.Of(pt), pt, nil
 	case "slice":
-		es, gt, err := p.ResolveTypeX(ss, pk, t.Elem)
+		es, gt, err := p.resolveTypeXWith(ss, pk, t.Elem, extra)
 		if err != nil {
 			return nil, nil, err
 		}
@@ -873,11 +900,11 @@ func (p *Program) ResolveTypeX(ss *Sorts, pk *packages.Package, t *TypeX) (*Sort
 		}
 		return ss.mkSlice(es, nil), nil, nil
 	case "map":
-		ks, kt, err := p.ResolveTypeX(ss, pk, t.Key)
+		ks, kt, err := p.resolveTypeXWith(ss, pk, t.Key, extra)
 		if err != nil {
 			return nil, nil, err
 		}
-		es, et, err := p.ResolveTypeX(ss, pk, t.Elem)
+		es, et, err := p.resolveTypeXWith(ss, pk, t.Elem, extra)
 		if err != nil {
 			return nil, nil, err
 		}
@@ -887,11 +914,11 @@ func (p *Program) ResolveTypeX(ss *Sorts, pk *packages.Package, t *TypeX) (*Sort
 		}
 		return ss.mkMap(ks, es, nil), nil, nil
 	case "arr":
-		ks, _, err := p.ResolveTypeX(ss, pk, t.Key)
+		ks, _, err := p.resolveTypeXWith(ss, pk, t.Key, extra)
 		if err != nil {
 			return nil, nil, err
 		}
-		es, _, err := p.ResolveTypeX(ss, pk, t.Elem)
+		es, _, err := p.resolveTypeXWith(ss, pk, t.Elem, extra)
 		if err != nil {
 			return nil, nil, err
 		}
